@@ -1,4 +1,8 @@
 mod alpha;
+mod ast;
+mod c01;
+mod interp;
+mod progen;
 mod c04;
 mod c05;
 mod c06;
@@ -16,7 +20,7 @@ use engine::*;
 
 fn checks() -> Vec<Box<dyn Check>>
 {
-	vec![Box::new(c04::C04), Box::new(c05::C05), Box::new(c06::C06), Box::new(c14::C14), Box::new(c15::C15), Box::new(c19::C19)]
+	vec![Box::new(c01::C01), Box::new(c04::C04), Box::new(c05::C05), Box::new(c06::C06), Box::new(c14::C14), Box::new(c15::C15), Box::new(c19::C19)]
 }
 
 fn main()
